@@ -223,8 +223,9 @@ def exec_config(case):
     cfg = case['cfg']
     p = draw_params(rnd, cfg)
     modes = build_modes(cfg, p)
+    elements = rnd.choice([{'C': 1, 'O': 2}, {'H': 2, 'O': 1}, {'N': 2}, {'C': 2, 'H': 6, 'O': 1}])
     sp = StatMech(name='sp', trans_model=modes['trans'], vib_model=modes['vib'], rot_model=modes['rot'],
-                  elec_model=modes['elec'], nucl_model=modes['nucl'])
+                  elec_model=modes['elec'], nucl_model=modes['nucl'], elements=elements)
     events = []
     thetas_char = []
     if 'vib' in p:
@@ -254,6 +255,24 @@ def exec_config(case):
             direct = [call(modes[s], name, **kw) for s in order]
             events.append({'ev': 'verbose', 'g': g, 'tot': to_dec(tot), 'norefs': to_dec(norefs),
                            'parts': [to_dec(x) for x in parts], 'direct': [to_dec(x) for x in direct]})
+        # entropy of the elements as an option of S, F and G: the total drops by S_ele and stays the sum of
+        # the verbose vector (S_ele for the reference: the library's own element table, judged by C12)
+        from pmutt import constants as c
+        selref = sum(c.S_elements[el] * n for el, n in elements.items())      # table entries are S/R
+        for g in ('S', 'F', 'G'):
+            name = GNAME[g]
+            kw = {'T': T, 'P': P}
+            try:
+                tot0 = float(getattr(sp, name)(verbose=False, **kw))
+                parts0 = [float(x) for x in getattr(sp, name)(verbose=True, **kw)]
+                tot = float(getattr(sp, name)(verbose=False, S_elements=True, **kw))
+                parts = [float(x) for x in getattr(sp, name)(verbose=True, S_elements=True, **kw)]
+            except TypeError:
+                continue
+            sr = selref if g == 'S' else -selref
+            events.append({'ev': 'verbose_sel', 'g': g, 'tot': to_dec(tot), 'tot0': to_dec(tot0),
+                           'parts': [to_dec(x) for x in parts], 'parts0': [to_dec(x) for x in parts0],
+                           'selref': to_dec(sr)})
         for slot in order:
             kind = cfg[slot]
             if kind in ('Empty', 'EmptyNucl'):
